@@ -303,11 +303,29 @@ var dfsPrograms = [][][]call{
 	{{{"a", 1}, {"a", -1}}, {{"w", 0}, {"c", 0}}, {{"a", 2}, {"a", -2}}},
 	{{{"a", 1}, {"w", 0}, {"a", -1}}, {{"a", 1}, {"a", -1}}},
 	{{{"a", 2}, {"a", -1}, {"a", -1}}, {{"w", 0}, {"w", 0}}, {{"a", 1}, {"a", -1}}},
+	// a Wait that starts after its goroutine's own increment returned (the count is >= 1 for the
+	// whole interval, whatever the others do) next to a goroutine crossing zero: a release that is
+	// decided on a stale view (a retry loop that keeps a decision of a failed attempt) closes the
+	// live channel
+	{{{"a", 1}, {"a", -1}}, {{"a", 1}, {"w", 0}}},
+	// four and more edge transitions (0->1, 1->0, 0->1, ...) spread over three goroutines, the
+	// last one keeps the count at 1 and then waits: a release that acts late (after the critical
+	// section) meets a later cycle
+	{{{"a", 1}, {"a", -1}}, {{"a", 1}, {"a", -1}}, {{"a", 1}, {"w", 0}}},
+}
+
+// dfsProgramsThorough: enumerated in the thorough tier only (and by the widened search after a
+// broken lock-step).
+var dfsProgramsThorough = [][][]call{
+	{{{"a", 1}, {"a", -1}}, {{"a", 1}, {"a", -1}}, {{"a", 1}, {"a", -1}}, {{"w", 0}, {"c", 0}, {"w", 0}}},
+	{{{"a", 1}, {"a", -1}, {"a", 1}, {"a", -1}}, {{"a", 1}, {"a", -1}, {"a", 1}, {"w", 0}}},
+	{{{"a", 1}, {"w", 0}, {"a", -1}}, {{"a", 1}, {"w", 0}, {"a", -1}}, {{"c", 0}, {"w", 0}}},
+	{{{"a", 2}, {"a", -2}}, {{"a", 1}, {"a", 1}, {"a", -2}, {"w", 0}}, {{"a", 0}, {"w", 0}}},
 }
 
 func runGSync(f *hx.Flags) {
 	impl := &gImpl{}
-	r := hx.NewRunner(f, "h-gsync", impl, "client programs of 2-4 goroutines x 1-4 calls (Add +/-n, Wait, Count; each goroutine only decrements what it incremented), run under the cooperative scheduler on an instrumented copy of /repo/gsync: uniformly random schedules, burst schedules, and every schedule with <=2 (quick) / <=3 (thorough) preemptions of four fixed 2-3 goroutine programs; after EVERY step label class, counter, installed channel, closed channels, lock holder, per-goroutine call status, return values, Wait results with closed-ness and zero-seen flags are compared with Model/GSync.step; Count()/Wait() probes at rest. An implementation-side monitor evaluates C01/C02 exactly as worded. non-trivial: >=2 goroutines with at least one Wait and one Add; distinct by (program, schedule)")
+	r := hx.NewRunner(f, "h-gsync", impl, "client programs of 2-4 goroutines x 1-4 calls (Add +/-n, Wait, Count; each goroutine only decrements what it incremented), run under the cooperative scheduler on an instrumented copy of /repo/gsync: uniformly random schedules, burst schedules, and every schedule with <=2 (quick) / <=3 (thorough) preemptions of twelve (thorough: sixteen) fixed 2-4 goroutine programs (a decrement is admitted once the increments that have returned, or the implementation's counter, cover it); after EVERY step label class, counter, installed channel, closed channels, lock holder, per-goroutine call status, return values, Wait results with closed-ness and zero-seen flags are compared with Model/GSync.step; Count()/Wait() probes at rest. An implementation-side monitor evaluates C01/C02 exactly as worded. non-trivial: >=2 goroutines with at least one Wait and one Add; distinct by (program, schedule)")
 	r.TieOnly = true
 	r.ImplVerdict = func(l string) string {
 		if i := strings.Index(l, " mon="); i >= 0 {
@@ -349,7 +367,7 @@ func runGSync(f *hx.Flags) {
 	}
 	r.RunCorpus()
 	variant := "cur"
-	nprog, nsched, bound, limit := r.N(700), 6, 2, 8000
+	nprog, nsched, bound, limit := r.N(700), 6, 2, 12000
 	if f.Tier == "thorough" {
 		nprog, nsched, bound, limit = r.N(12000), 12, 3, 300000
 	}
@@ -359,7 +377,11 @@ func runGSync(f *hx.Flags) {
 			r.Add(genCase(r.Rng, variant, progs, j%3))
 		}
 	}
-	for _, progs := range dfsPrograms {
+	enum := dfsPrograms
+	if f.Tier == "thorough" {
+		enum = append(append([][][]call{}, dfsPrograms...), dfsProgramsThorough...)
+	}
+	for _, progs := range enum {
 		lim := limit
 		dfs(variant, progs, bound, r.Add, &lim)
 	}
@@ -380,8 +402,9 @@ func runGSync(f *hx.Flags) {
 		if f.Tier == "thorough" {
 			lim, nrand = 300000, 3000
 		}
-		for _, progs := range dfsPrograms {
-			l := lim / len(dfsPrograms)
+		wide := append(append([][][]call{}, dfsPrograms...), dfsProgramsThorough...)
+		for _, progs := range wide {
+			l := lim / len(wide)
 			dfs(variant, progs, 3, r.Add, &l)
 			r.Flush()
 		}
